@@ -90,6 +90,31 @@ def gen_cases(rng, n_random, tier):
         if rng.random() < 0.05:
             drift = rng.choice([10 ** 9, 10 ** 9 + 1, 2 ** 32 - 1, rng.randrange(10 ** 9, 2 ** 32)])
         add(mk(as_of, void, bound, drift, st, real, mono), "random")
+    # (e) chains of consecutive calls in which exactly one input differs from the call before: whatever a
+    # client (thread, context) remembers from an earlier call must not leak into the next result
+    for _ in range(max(30, n_random // 30)):
+        as_of, void, bound, drift = rand_record()
+        st = rng.choice([0, 1, 2])
+        real = rng.randrange(0, 2 * 10 ** 9) * NS + rng.randrange(NS)
+        mono = as_of + rng.choice([0, rng.randrange(4 * NS), 5 * NS + rng.randrange(100 * NS)])
+        cur = [as_of, void, bound, drift, st, real, mono]
+        add(mk(*cur), "chain")
+        for field in rng.sample(range(7), 7):
+            if field == 0:
+                cur[0] = max(0, cur[0] + rng.choice([-NS, -1, 1, NS, 7 * NS]))
+            elif field == 1:
+                cur[1] = cur[1] + rng.choice([-2000 * NS, -NS, NS, 500 * NS])
+            elif field == 2:
+                cur[2] = rng.choice([0, cur[2] + 1, cur[2] * 3 + 2990000, rng.randrange(10 ** 9)])
+            elif field == 3:
+                cur[3] = rng.choice([0, 1, cur[3] + 1, 999, 50000, 10 ** 9 - 1, 10 ** 9])
+            elif field == 4:
+                cur[4] = (cur[4] + rng.choice([1, 2])) % 3
+            elif field == 5:
+                cur[5] = cur[5] + rng.choice([-NS, -1, 1, 999999, NS, 3600 * NS])
+            else:
+                cur[6] = max(0, cur[6] + rng.choice([-2000, -1, 1, 999, NS, 6 * NS, 2000 * NS]))
+            add(mk(*cur), "chain")
     edge_ts = [-SECMAX * NS, SECMAX * NS + NS - 1, 0, -1, NS - 1]
     for a in edge_ts:
         for m in edge_ts:
